@@ -46,7 +46,10 @@ func c19Key(prefix, variable string) string {
 
 var c19Levels = []string{"", "a", "a.b", "a.b.c", "a.x"}
 
-// VerifC19_Timeout: Timeout(path) is the value at the longest prefix with a non-zero timeout.
+// VerifC19_Timeout: Timeout(path) is the value at the longest prefix with a non-zero timeout -
+// of the configuration tree as it is at the time of the call: after the first lookup the value at
+// one level (any) is set, changed or cleared and the same path is looked up again; nothing
+// remembered from the first answer shows in the second.
 func VerifC19_Timeout() {
 	viper.Reset()
 	vals := map[string]time.Duration{}
@@ -58,20 +61,28 @@ func VerifC19_Timeout() {
 		}
 	}
 	path := c19Lookup[vnd.Choose("path", len(c19Lookup))]
-	got := Timeout(path)
-	want := vals[""] // zero when absent
-	found := false
-	for _, p := range c19Prefixes(path) {
-		if d, ok := vals[p]; ok && d != 0 && !found {
-			want, found = d, true
+	for round := 0; round < 2; round++ {
+		if round == 1 {
+			lvl := c19Levels[vnd.Choose("changed-level", len(c19Levels))]
+			d := time.Duration(vnd.I64("changed-to")) // zero: no value any more
+			viper.Set(c19Key(lvl, "timeout"), d)
+			vals[lvl] = d
 		}
+		got := Timeout(path)
+		want := vals[""] // zero when absent
+		found := false
+		for _, p := range c19Prefixes(path) {
+			if d, ok := vals[p]; ok && d != 0 && !found {
+				want, found = d, true
+			}
+		}
+		if found {
+			vnd.Cover("C19.timeout.specific")
+		} else {
+			vnd.Cover("C19.timeout.fallback-to-top")
+		}
+		vnd.Assert(got == want, "C19.timeout.longest-prefix")
 	}
-	if found {
-		vnd.Cover("C19.timeout.specific")
-	} else {
-		vnd.Cover("C19.timeout.fallback-to-top")
-	}
-	vnd.Assert(got == want, "C19.timeout.longest-prefix")
 }
 
 // VerifC19_Addresses: BeaconNodeAddresses(path).
@@ -148,6 +159,44 @@ func VerifC19_LogLevel() {
 	}
 }
 
+// VerifC19_LogLevelHistory: the same path looked up twice, the second time after
+// the value at one level was set, changed or cleared: the answer follows the tree.
+func VerifC19_LogLevelHistory() {
+	viper.Reset()
+	names := []string{"", "debug", "Warning"}
+	levels := []zerolog.Level{zerolog.NoLevel, zerolog.DebugLevel, zerolog.WarnLevel}
+	lvls := []string{"", "a", "a.b"}
+	vals := map[string]int{}
+	for _, lvl := range lvls {
+		k := vnd.Choose("level", len(names)) // 0: none
+		if k != 0 {
+			viper.Set(c19Key(lvl, "log-level"), names[k])
+			vals[lvl] = k
+		}
+	}
+	const path = "a.b.c"
+	for round := 0; round < 2; round++ {
+		if round == 1 {
+			lvl := lvls[vnd.Choose("changed-level", len(lvls))]
+			k := vnd.Choose("changed-to", len(names))
+			viper.Set(c19Key(lvl, "log-level"), names[k])
+			vals[lvl] = k
+		}
+		got := LogLevel(path)
+		want := vals[""]
+		found := false
+		for _, p := range c19Prefixes(path) {
+			if k, ok := vals[p]; ok && k != 0 && !found {
+				want, found = k, true
+			}
+		}
+		if want != 0 {
+			vnd.Assert(got == levels[want], "C19.loglevel.longest-prefix")
+			vnd.Cover("C19.loglevel.history.set")
+		}
+	}
+}
+
 // VerifC19_Concurrency: ProcessConcurrency(path).
 func VerifC19_Concurrency() {
 	viper.Reset()
@@ -160,18 +209,27 @@ func VerifC19_Concurrency() {
 		}
 	}
 	path := c19Lookup[vnd.Choose("path", len(c19Lookup))]
-	got := ProcessConcurrency(path)
-	want := vals[""]
-	found := false
-	for _, p := range c19Prefixes(path) {
-		if v, ok := vals[p]; ok && !found {
-			want, found = v, true
+	// looked up twice: the second time after a value was set or changed at one level
+	for round := 0; round < 2; round++ {
+		if round == 1 {
+			lvl := c19Levels[vnd.Choose("changed-level", len(c19Levels))]
+			v := vnd.I64("changed-to")
+			viper.Set(c19Key(lvl, "process-concurrency"), v)
+			vals[lvl] = v
 		}
+		got := ProcessConcurrency(path)
+		want := vals[""]
+		found := false
+		for _, p := range c19Prefixes(path) {
+			if v, ok := vals[p]; ok && !found {
+				want, found = v, true
+			}
+		}
+		if found {
+			vnd.Cover("C19.concurrency.specific")
+		}
+		vnd.Assert(got == want, "C19.concurrency.longest-prefix")
 	}
-	if found {
-		vnd.Cover("C19.concurrency.specific")
-	}
-	vnd.Assert(got == want, "C19.concurrency.longest-prefix")
 }
 
 // VerifC19_Bool: HierarchicalBool(variable, path).
@@ -186,18 +244,27 @@ func VerifC19_Bool() {
 		}
 	}
 	path := c19Lookup[vnd.Choose("path", len(c19Lookup))]
-	got := HierarchicalBool("some-flag", path)
-	want := vals[""]
-	found := false
-	for _, p := range c19Prefixes(path) {
-		if v, ok := vals[p]; ok && !found {
-			want, found = v, true
+	// looked up twice: the second time after a value was set or changed at one level
+	for round := 0; round < 2; round++ {
+		if round == 1 {
+			lvl := c19Levels[vnd.Choose("changed-level", len(c19Levels))]
+			v := vnd.Bool("changed-to")
+			viper.Set(c19Key(lvl, "some-flag"), v)
+			vals[lvl] = v
 		}
+		got := HierarchicalBool("some-flag", path)
+		want := vals[""]
+		found := false
+		for _, p := range c19Prefixes(path) {
+			if v, ok := vals[p]; ok && !found {
+				want, found = v, true
+			}
+		}
+		if found {
+			vnd.Cover("C19.bool.specific")
+		}
+		vnd.Assert(got == want, "C19.bool.longest-prefix")
 	}
-	if found {
-		vnd.Cover("C19.bool.specific")
-	}
-	vnd.Assert(got == want, "C19.bool.longest-prefix")
 }
 
 // VerifC19_AddressesForDuties: the beacon nodes used for proposing / attesting
